@@ -36,3 +36,25 @@ Example C02_example :
   run (option Q) None (q_better true) (q_stop true (11#10)%Q) 2 (Some 2) false true (map Some [3; 9; 1]%Q)
   = Out {| w_iter := 2; w_m := 2; w_bw := 2 |} 2 2 None 3 false.
 Proof. vm_compute. reflexivity. Qed.
+
+(* ---------- the ridge system itself (re-translated from fit_predictor_lstsq on every run: harness/solveops.py) ---------- *)
+Require Import Reals.
+Require Import XV.Real.Kernels XV.Real.Ridge.
+(* the code adds reg to the diagonal of the Gram matrix in place and solves against the targets: alpha solves that system iff the predictions at the
+   training centers equal Y - lambda * alpha (the "equivalently" clause of the property), for any size *)
+Theorem C02_ridge_system_equivalent_forms : forall n (reg : R) K a y, square n K -> length a = n -> length y = n ->
+  (mvR (add_diagR reg K) a = y <-> mvR K a = vsubR y (vscaleR reg a)).
+Proof. exact ridge_equiv. Qed.
+(* for a positive semi-definite Gram matrix and lambda > 0 the solution is unique: whatever LAPACK routine produced coefficients with zero residual
+   produced THE ridge coefficients (all three solver branches agree) ... *)
+Theorem C02_ridge_solution_is_unique : forall n (reg : R) K a b, (0 < reg)%R -> square n K -> psdR n K -> length a = n -> length b = n ->
+  mvR (add_diagR reg K) a = mvR (add_diagR reg K) b -> a = b.
+Proof. exact ridge_unique. Qed.
+(* ... and a small residual means closeness to it: |a - b| <= |residual| / lambda (the numeric residual check of the harness bounds the distance
+   of the stored coefficients from the exact ridge solution) *)
+Theorem C02_small_residual_means_close_to_the_solution : forall n (reg : R) K a b, (0 < reg)%R -> square n K -> psdR n K -> length a = n -> length b = n ->
+  let d := vsubR a b in let r := vsubR (mvR (add_diagR reg K) a) (mvR (add_diagR reg K) b) in (sqrt (vdotR d d) <= sqrt (vdotR r r) / reg)%R.
+Proof. exact residual_bound_norm. Qed.
+Print Assumptions C02_ridge_system_equivalent_forms.
+Print Assumptions C02_ridge_solution_is_unique.
+Print Assumptions C02_small_residual_means_close_to_the_solution.
